@@ -37,6 +37,8 @@ def base_ns(draw=None, probes=0, hooks=False):
     ns = dict(
         va='⟦A⟧', vb='⟦B⟧', vn=7, vz='', vnone=None,
         ct=1, cf=0,
+        # names that are proper prefixes of other names of the schema
+        v='⟦V⟧', c=0, s=dict(t='list', items=['⟦s⟧']),
         fa=dict(t='rec', id='fa', ret='⟦FA⟧'),
         ft=dict(t='rec', id='ft', ret=1),
         ff=dict(t='rec', id='ff', ret=0),
@@ -112,9 +114,9 @@ def base_ns(draw=None, probes=0, hooks=False):
     return ns
 
 
-PLAIN_NAMES = ['va', 'vb', 'vn']
-COND_NAMES = ['ct', 'cf', 'cu', 'ft', 'ff', 'va', 'vz']
-SEQ_NAMES = ['s0', 's2', 'ss']
+PLAIN_NAMES = ['va', 'vb', 'vn', 'v']
+COND_NAMES = ['ct', 'cf', 'cu', 'ft', 'ff', 'va', 'vz', 'c', 'v', 's']
+SEQ_NAMES = ['s0', 's2', 'ss', 's']
 
 
 def name_ref(names):
@@ -251,9 +253,9 @@ def node_of(cfg, k, depth, scope):
             st.one_of(st.none(), body(cfg, d, scope)),
             e(n + 2)) for n in (1, 1, 2, 3)])
     if k == 'unless':
-        return st.builds(lambda r, b, eol: dict(k='unless', ref=r, body=b,
-                                                eol=eol),
-                         cond_ref(cfg), body(cfg, d, scope), e(2))
+        return st.builds(lambda r, b, eol, ae: dict(
+            k='unless', ref=r, body=b, eol=eol, as_else=ae == 0),
+            cond_ref(cfg), body(cfg, d, scope), e(2), st.integers(0, 2))
     if k == 'in':
         def mk(seq, opts, b, els, eol):
             return dict(k='in', ref=dict(r='name', n=seq), opts=opts, body=b,
